@@ -35,6 +35,7 @@ type Query {
   fail: String
   box(in: Box): String
   ghost: String
+  countdown(n: Int): String
 }
 
 input Box {
@@ -104,6 +105,21 @@ type Query struct {
 	When  time.Time
 	Ratio float64
 	Self  *Query
+
+	root *ggql.Root // for Countdown, which resolves a request on the same root from inside a resolver
+}
+
+// Countdown answers "n ... 1 0" by asking the same root for countdown(n-1): application code that resolves on the root it
+// is being resolved on (stitching, delegation). Nothing the library holds while it calls a method may be needed again
+// by that nested request.
+func (q *Query) Countdown(n int32) string {
+	called("Query.Countdown")
+	if n <= 0 || n > 8 || q.root == nil {
+		return "0"
+	}
+	res := q.root.ResolveString(fmt.Sprintf("{ countdown(n: %d) }", n-1), "", nil)
+	data, _ := res["data"].(map[string]interface{})
+	return fmt.Sprintf("%d %v", n, data["countdown"])
 }
 
 // Hello greets.
@@ -212,6 +228,7 @@ func NewRoot() (*ggql.Root, *Root, error) {
 	q.Self = q
 	r := &Root{Query: q, Mutation: &Mutation{N: 10}}
 	root := ggql.NewRoot(r)
+	q.root = root
 	if err := root.ParseString(SDL); err != nil {
 		return nil, nil, err
 	}
@@ -250,6 +267,7 @@ var Requests = []struct {
 	{`{ add(a: 1, b: 2) }`, nil},
 	{`{ box(in: {d: [1, 2], name: "n"}) }`, nil},
 	{`{ ghost name }`, nil},
+	{`{ countdown(n: 3) name }`, nil},
 	{`{ items { id ghost } count }`, nil},
 	{`{ name g: ghost items { g2: ghost } }`, nil},
 	{`query($b: Box){ box(in: $b) }`, map[string]interface{}{"b": map[string]interface{}{"d": []interface{}{float64(3)}}}},
